@@ -1,3 +1,4 @@
+import TinysetModel.Proofs.Fns
 import TinysetModel.Proofs.Tiny.Ascending
 import TinysetModel.Proofs.Consts
 import TinysetModel.Proofs.InlineSpec
@@ -132,6 +133,19 @@ example : InBudget codec64 (sortDedup [5, 3, 5, 1000]) := by
 example : StackWF cfg64 ⟨3, 69946533860081667⟩ ∧ 5 ∈ T.members codec64 ⟨3, 69946533860081667⟩ ∧
     InBudget codec64 ((T.members codec64 ⟨3, 69946533860081667⟩).filter (· ≠ 5)) :=
   ⟨Demo.inline64_wf, by decide, ⟨by decide, by decide, ⟨by decide, by decide, trivial⟩, by decide⟩⟩
+
+/-! ### the word codec of the model is `Tiny::to_usize` / `Tiny::from_usize` of the current source
+(`Generated/Fns.lean`, translated on every run) -/
+
+theorem word_codec_is_the_source_u64 (t : T) (x : Nat) :
+    Gen.tiny_to_usize_64 t.sz t.bits = toWord codec64 t ∧
+    (⟨Gen.tiny_from_usize_sz_64 x, Gen.tiny_from_usize_bits_64 x⟩ : T) = ofWord codec64 x :=
+  ⟨tiny_to_usize_64_eq t, tiny_from_usize_64_eq x⟩
+/-- SetU32: counts 4, 5, 6 are stored as 5, 6, 7 so that `0b100` stays free for 4-aligned pointers -/
+theorem word_codec_is_the_source_u32 (t : T) (h : t.sz ≤ 7) (x : Nat) :
+    Gen.tiny_to_usize_32 t.sz t.bits = toWord codec32 t ∧
+    (⟨Gen.tiny_from_usize_sz_32 x, Gen.tiny_from_usize_bits_32 x⟩ : T) = ofWord codec32 x :=
+  ⟨tiny_to_usize_32_eq t h, tiny_from_usize_32_eq x⟩
 
 end C10
 
